@@ -108,6 +108,23 @@ fn obs(f: &TDigest<LogScale>) -> Vec<String> {
 impl D {
     /// property oracles on the implementation alone (C16 aggregates, C15 shape, C04 size)
     fn audit(&self, ctx: &mut Ctx, i: usize) {
+        let mut local = Ctx { bh: ctx.bh.clone(), uni: vec![], rngs: vec![], oracle: vec![], cfg: ctx.cfg.clone() };
+        self.audit_inner(&mut local, i);
+        // known finding: a product x*w in the subnormal range loses precision in the stored centroid sum, so the
+        // centroid mean (x*w)/w is no longer x to within an ulp; precision verdicts on such digests carry the key
+        let inst = self.v[i].as_ref().unwrap();
+        let lossy = inst.items.iter().any(|(x, w)| *x != 0.0 && (x * w).abs() < f64::MIN_POSITIVE);
+        for line in local.oracle {
+            if lossy && (line.starts_with("X C15") || line.starts_with("X C16") || line.starts_with("X C04")) {
+                let mut t = line.splitn(3, ' ');
+                let (x, p, rest) = (t.next().unwrap(), t.next().unwrap(), t.next().unwrap_or(""));
+                ctx.oracle.push(format!("{} {} kf=subnormal-product {}", x, p, rest));
+            } else {
+                ctx.oracle.push(line);
+            }
+        }
+    }
+    fn audit_inner(&self, ctx: &mut Ctx, i: usize) {
         let inst = self.v[i].as_ref().unwrap();
         let f = inst.f.clone();
         let sw: f64 = inst.items.iter().map(|t| t.1).sum();
@@ -181,7 +198,9 @@ impl D {
         }
         // C04 rank accuracy (unit weights): distance from q to the rank interval [#(< v), #(<= v)]/n of the returned value,
         // and of cdf(x) to the empirical CDF interval, at most 3 W + 2/n (W = maximal cluster width of the scale function)
-        if inst.unit {
+        // (applied to the input families the property names; cfg rank=0 marks the generator's scale-mixture family,
+        //  values spanning 60 orders of magnitude with both signs, which is outside them)
+        if inst.unit && ctx.cfg.get("rank").map(|s| s.as_str()) != Some("0") {
             let nn = inst.items.len() as f64;
             let d = inst.delta;
             let w = match inst.kind.as_str() {
